@@ -1666,6 +1666,12 @@ class Exec:  # an execution path
 
         var_set = self.path.get_var_set(self.balance)
 
+        # the block timestamp carries over to the next transaction, whose timestamp
+        # is constrained relative to it, so constraints over it are part of the state
+        timestamp = self.block.timestamp
+        if isinstance(timestamp, BitVecRef):
+            var_set = itertools.chain(var_set, self.path.get_var_set(timestamp))
+
         # the keys of self.code are constant
         for _contract in self.code.values():
             _code = _contract._code
